@@ -252,6 +252,37 @@ pub fn space(thorough: bool) -> Vec<Prog> {
             }
         }
     }
+    // large modules: the using helper is the last of N functions the entry calls (visited-set representations that
+    // depend on the number of functions: 63 / 64 / 65 / 128 / 256 / 300 helpers), called first or last
+    for n in [8usize, 63, 64, 65, 127, 128, 129, 256, 300] {
+        for reader_first in [false, true] {
+            for direct in [None, Some(Stage::V)] {
+                let mut src = String::from("var<push_constant> pc_wide: vec4<f32>;\n");
+                if reader_first {
+                    src.push_str("fn reader() -> f32 { return pc_wide.x; }\n");
+                }
+                for i in 0..n {
+                    src.push_str(&format!("fn filler_{i}() -> f32 {{ return {i}.0; }}\n"));
+                }
+                if !reader_first {
+                    src.push_str("fn reader() -> f32 { return pc_wide.x; }\n");
+                }
+                let calls: String = (0..n).map(|i| format!("    acc += filler_{i}();\n")).collect();
+                let mut stages = Stage::F.bit();
+                let vbody = match direct {
+                    Some(_) => {
+                        stages |= Stage::V.bit();
+                        indent("acc = pc_wide.y;")
+                    }
+                    None => String::new(),
+                };
+                src.push_str(&Stage::V.entry("vs_main", &vbody));
+                src.push_str(&Stage::F.entry("fs_main", &format!("{calls}    acc += reader();\n")));
+                src.push_str(&Stage::C.entry("cs_main", ""));
+                out.push(Prog { key: format!("wide|n={n}|reader-first={}|direct={direct:?}", reader_first as u8), src, expect: Some((16, stages)), groups: 0 });
+            }
+        }
+    }
     // several entry points per stage (used by all entries of the using stages / by none)
     use Stage::*;
     for es in [vec![V, F, F], vec![C, C], vec![V, V, F, C], vec![F, F, F], vec![C, V, C, F, C], vec![V, V], vec![F, C, F, C]] {
